@@ -122,6 +122,15 @@ def argument_forms():
                 "psd.extend(generator) lists %d layers, a plain list %d" % (len(psd._layers), len(plain)) if bad else None,
                 {"call": "psd.extend(x for x in [a, b])"}))
     w = T.build(("flat", "RGB", 8))
+    psd, a = w.objs[0], T._px(w.objs[0], "RGB", "it3", 1, 1)
+    plain = list(psd._layers)
+    psd[0:1] = (x for x in [a])
+    plain[0:1] = (x for x in [a])
+    bad = [id(x) for x in psd._layers] != [id(x) for x in plain]
+    out.append(("C09/setslice/iterator-consumed-by-check",
+                "psd[0:1] = generator lists %d layers, a plain list %d" % (len(psd._layers), len(plain)) if bad else None,
+                {"call": "psd[0:1] = (x for x in [a])"}))
+    w = T.build(("flat", "RGB", 8))
     psd = w.objs[0]
     plain = list(psd._layers)
     for name, f in (("del [::2]", lambda l: l.__delitem__(slice(None, None, 2))),
